@@ -9,6 +9,10 @@
   Since /repo e62ce6d index and slice assignment on a URL list (`lst[i] = u`, `lst[a:b:st] = us`:
   coerce, assign on a copy, clear, add every item again through the de-duplication filter) are
   inside the theorems, and since /repo 41bec34 `Trackers.replace` validates before it clears.  The
+  Since /repo 3d3793a `reverse()` is part of the operation alphabet: on a URL list it is one slice
+  assignment of the reversed list (`C16_reverse*`); on the tiers container it reverses `_tiers` in
+  place since /repo f86a28a (`C16_tiers_reverse`; the inherited `MutableSequence.reverse` silently did
+  nothing — regression examples below).  The
   code still falsifies the full statement in ONE way (open finding D16b: slice assignment on the
   tiers container, `torrent.trackers[a:b] = …`), so the full statement is kept as
   `def …_full : Prop`, the `_partial` theorems are proved for histories without that operation
@@ -119,7 +123,7 @@ theorem C16_setitem_atomic_and_deduplicated (isUrl : String → Bool) (known ite
       split at h
       · cases h; simp
       · split at h <;> (cases h; simp)
-    · simp only [urlsOp] at h
+    · simp only [urlsOp, urlsSetSlice] at h
       split at h
       · cases h; simp
       · split at h <;> (cases h; simp)
@@ -134,11 +138,82 @@ theorem C16_setitem_atomic_and_deduplicated (isUrl : String → Bool) (known ite
 theorem C16_setslice_self_identity (isUrl : String → Bool) (known items : List String)
     (hk : UOK isUrl known items) :
     urlsOp isUrl known items (.setSlice none none none items) = (some items, .ok) := by
-  simp only [urlsOp, coerceAll_id hk.2.1, sliceAssign, sliceRange, Option.getD_none, if_true, splice]
-  simp only [List.take_zero, List.nil_append, Nat.max_eq_right, Nat.zero_le,
-    List.drop_length, List.append_nil]
-  have := readd_id (isUrl := isUrl) (known := known) (acc := []) (xs := items) (by simpa using hk)
-  simpa using this
+  simp only [urlsOp]
+  exact urlsSetSlice_whole hk
+
+/-! ### `reverse()` (in the alphabet since /repo 3d3793a) -/
+
+/-- `MonitoredList.reverse()` on a URL list (webseeds, httpseeds, a tier; `known` = the URLs of the
+    other tiers) whose items are good: the callback is called exactly ONCE, with exactly the
+    reversed list, and no error is raised -/
+theorem C16_reverse (isUrl : String → Bool) (known items : List String) (hk : UOK isUrl known items) :
+    urlsOp isUrl known items .reverse = (some items.reverse, .ok) :=
+  urlsOp_reverse hk
+
+/-- … on `torrent.webseeds` (and, with the fields exchanged, `httpseeds`) of any state that
+    satisfies the invariant: no error, `url-list` is the reversed list (absent when empty), nothing
+    else changes, and reading the list back gives exactly the reversed list -/
+theorem C16_reverse_seeds (isUrl : String → Bool) (s : MI) (W : List String)
+    (hW : UOK isUrl [] W) (hw : s.urlList = writeSeeds W) :
+    step isUrl s (.webseeds (.edit .reverse)) = ({ s with urlList := writeSeeds W.reverse }, .ok) ∧
+    getSeeds isUrl (writeSeeds W.reverse) = .ok W.reverse := by
+  refine ⟨?_, getSeeds_writeSeeds (UOK_reverse hW)⟩
+  simp only [step, seedsOp, hw, getSeeds_writeSeeds hW, urlsOp_reverse hW, lastSeeds]
+
+theorem C16_reverse_httpseeds (isUrl : String → Bool) (s : MI) (H : List String)
+    (hH : UOK isUrl [] H) (hh : s.httpseeds = writeSeeds H) :
+    step isUrl s (.httpseeds (.edit .reverse)) = ({ s with httpseeds := writeSeeds H.reverse }, .ok) ∧
+    getSeeds isUrl (writeSeeds H.reverse) = .ok H.reverse := by
+  refine ⟨?_, getSeeds_writeSeeds (UOK_reverse hH)⟩
+  simp only [step, seedsOp, hh, getSeeds_writeSeeds hH, urlsOp_reverse hH, lastSeeds]
+
+/-- … on a tier `trackers[ti]` of good tiers: the callback gets the tiers with exactly that tier
+    reversed (a tier is never empty, so nothing is removed), no error -/
+theorem C16_reverse_tier (isUrl : String → Bool) (T : Tiers) (ti : Int) (k : Nat) (tier : Tier)
+    (hT : TiersOK isUrl T) (hpi : pyIndex T.length ti = some k) (hget : T[k]? = some tier) :
+    tierOp isUrl T ti .reverse = (some (wOf (splice T k (k + 1) [tier.reverse])), .ok) := by
+  have hu := tier_UOK_others hT hget
+  have hne : tier.reverse ≠ [] := by
+    have := hT.1 tier (List.mem_of_getElem? hget)
+    simpa using this
+  simp only [tierOp, hpi, hget, urlsOp_reverse hu, Option.map_some, afterTier, hne, if_false]
+
+/-- `torrent.trackers.reverse()` (/repo f86a28a; the former `def C16_tiers_reverse_full`, which the
+    inherited `MutableSequence.reverse` falsified by doing nothing): whatever the tiers `T` of the
+    object are, the callback is called exactly ONCE, with exactly `T.reverse`, and no error is
+    raised; on a held object the tiers are `T.reverse` afterwards, the metainfo mirrors them —
+    `announce` is the first URL of the NEW first tier (the old last one), `announce-list` the reversed
+    tiers iff there is more than one URL — and nothing else changes; good tiers stay good -/
+theorem C16_tiers_reverse (isUrl : String → Bool) (s : MI) (T : Tiers) :
+    tiersOp isUrl T .reverse = (some (wOf T.reverse), .ok) ∧
+    (heldOp isUrl s T .reverse).2 = (T.reverse, .ok) ∧
+    Mirrors (heldOp isUrl s T .reverse).1 T.reverse ∧
+    (heldOp isUrl s T .reverse).1.announce = T.getLast?.bind List.head? ∧
+    (heldOp isUrl s T .reverse).1.urlList = s.urlList ∧
+    (heldOp isUrl s T .reverse).1.httpseeds = s.httpseeds ∧
+    (TiersOK isUrl T → TiersOK isUrl T.reverse) := by
+  refine ⟨rfl, rfl, ⟨rfl, rfl⟩, ?_, rfl, rfl, TiersOK_reverse⟩
+  simp [heldOp, tiersOp, writeTrackers, wOf, List.head?_reverse]
+
+/-- … at state level, through a fresh getter call, from any state that mirrors good tiers `T`:
+    no error, `announce` / `announce-list` are what the write-back produces for `T.reverse`, and a
+    fresh `torrent.trackers` afterwards returns exactly `T.reverse` -/
+theorem C16_tiers_reverse_state (isUrl : String → Bool) (s : MI) (T : Tiers)
+    (hT : TiersOK isUrl T) (hm : Mirrors s T) :
+    step isUrl s (.trackers .reverse) = (writeTrackers s (wOf T.reverse), .ok) ∧
+    getTrackers isUrl (writeTrackers s (wOf T.reverse)) = .ok T.reverse := by
+  refine ⟨?_, getTrackers_eq (TiersOK_reverse hT) rfl rfl⟩
+  simp only [step, trackersOp, getTrackers_eq hT hm.1 hm.2, tiersOp, applyWritten]
+
+/-- what is LEFT of the old no-op: `tr[i] = v` with a tier value whose URLs are all stored already
+    (in any tier, the one that is to be replaced included) assigns nothing — `Trackers.__setitem__`
+    de-duplicates the new tier against ALL current URLs, so moving a tier by assignment
+    (`tr[0] = tr[1]`) is impossible; no error, the callback runs with the unchanged tiers.  (This
+    is why the inherited swap loop did nothing.)  Everything stays in sync. -/
+theorem C16_tiers_setitem_stored_noop (isUrl : String → Bool) (T : Tiers) (i : Int) (x : Tier)
+    (hT : TiersOK isUrl T) (hx : x ∈ T) :
+    tiersOp isUrl T (.setItem i (.list x)) = (some (wOf T), .ok) := by
+  simp only [tiersOp, tiersSetItem, tiersSetItemT_stored hT hx]
 
 /-! ### non-vacuity -/
 
@@ -194,6 +269,32 @@ example :
       = some ["udp://c:80/3", "http://b/2", "http://a/1"] ∧
     (step wIsUrl s (.webseeds (.edit (.setItem 0 "udp://c:80/3")))).1.urlList
       = some ["udp://c:80/3", "http://b/2"] := by decide
+
+/-- `reverse()`: on a seed list, on a tier and on the tiers container it reverses (one write-back),
+    on an empty list it does nothing, on a tier that does not exist it is the
+    IndexError of `trackers[ti]`; `Spec.holds` afterwards -/
+example :
+    let s := run wIsUrl MI.init [.trackers (.set (.list [.list ["http://a/1", "http://b/2"], .str "udp://c:80/3"])),
+      .webseeds (.set (.list ["http://a/1", "http://b/2", "udp://c:80/3"]))]
+    (step wIsUrl s (.webseeds (.edit .reverse))) =
+      ({ s with urlList := some ["udp://c:80/3", "http://b/2", "http://a/1"] }, .ok) ∧
+    (step wIsUrl s (.trackers (.tier 0 .reverse))) =
+      ({ s with announce := some "http://b/2",
+                announceList := some [["http://b/2", "http://a/1"], ["udp://c:80/3"]] }, .ok) ∧
+    (step wIsUrl s (.trackers .reverse)) =
+      ({ s with announce := some "udp://c:80/3",
+                announceList := some [["udp://c:80/3"], ["http://a/1", "http://b/2"]] }, .ok) ∧
+    -- regression: the inherited swap loop left `s` as it was (`reverse()` silently did nothing)
+    (step wIsUrl s (.trackers .reverse)).1 ≠ s ∧
+    -- … because each half of a swap is an assignment of a stored tier, which still assigns nothing
+    (step wIsUrl s (.trackers (.setItem 0 (.list ["udp://c:80/3"])))) = (s, .ok) ∧
+    (step wIsUrl MI.init (.webseeds (.edit .reverse))) = (MI.init, .ok) ∧
+    (step wIsUrl MI.init (.trackers .reverse)) = (MI.init, .ok) ∧
+    (step wIsUrl MI.init (.trackers (.tier 0 .reverse))) = (MI.init, .error .index) ∧
+    (∀ op ∈ [Op.webseeds (.edit .reverse), .trackers (.tier 0 .reverse), .trackers .reverse],
+      op.affected = false ∧
+      Spec.holds wIsUrl (step wIsUrl s op).1 (readBack wIsUrl (step wIsUrl s op).1) = true) := by
+  decide +kernel
 
 /-! ### regression: the former finding D16a (repaired in /repo e62ce6d) -/
 
